@@ -14,7 +14,7 @@ import (
 // another goroutine (real expiry code, mutexes block across goroutines). Then the write returns. Nobody crashes,
 // nobody is left blocked, no lock stays held.
 //
-//verif:props=C18,C09 replay=model unwind=20 bounds="one allocation with one channel binding (and its permission); one in-flight Send indication to the bound peer / ChannelData on the bound number / Refresh held inside its socket write; expiry of the allocation, the permission or the binding meanwhile"
+//verif:props=C18,C09,C15 replay=model unwind=20 bounds="one allocation with one channel binding (and its permission); one in-flight Send indication to the bound peer / ChannelData on the bound number / Refresh held inside its socket write; expiry of the allocation, the permission or the binding meanwhile"
 func VerifHarness_C18_timer_fires_during_a_request() {
 	s := vNewSrv(false, false)
 	c1 := allocation.VUDPAddr4()
